@@ -30,7 +30,8 @@ soft graph, with every task a node of both.
 The closure de-duplicates tasks by identity, not by name (the name check that
 follows must see both tasks of an equal-name pair). USE-PURE - deriving a
 wrapper from another (from_func, map, using) has no write effect on the
-wrapper or task it starts from (ownership analysis). FACTORY-PURE - the only
+wrapper or task it starts from (ownership analysis). KEY-INJECTIVE - no separator-joined sequence on the way from the sources to
+the key (followed through locals and package helpers). FACTORY-PURE - the only
 write of RunTaskFactory.make / copy that reaches the factory or the arguments,
 through any callee, is the memo self.cache (a request never changes what later
 requests of the same factory get).
@@ -84,23 +85,44 @@ def variants(program):
 
     def use_key_forgets_name(tree):
         fun = find_func(tree, 'Use.get_task')
-        ok = replace_first(
-            fun, lambda n: isinstance(n, ast.BinOp) and txt(n).endswith(
-                "+ '.' + self.func_name"),
-            lambda n: n.left.left)
-        return ok
+        return replace_first(
+            fun, lambda n: isinstance(n, ast.Tuple) and txt(n) ==
+            '(dep_names, self.func_name)',
+            lambda n: parse_expr('(dep_names,)'))
     add('use-key-forgets-function-name', 'mutant', USE,
         use_key_forgets_name, {'KEY'}, quick=True)
 
     def use_key_forgets_deps(tree):
         fun = find_func(tree, 'Use.get_task')
-        for node in ast.walk(fun):
-            if isinstance(node, ast.If) and txt(node.test) == 'deps':
-                node.body = node.orelse
-                return True
-        return False
+        return replace_first(
+            fun, lambda n: isinstance(n, ast.Tuple) and txt(n) ==
+            '(dep_names, self.func_name)',
+            lambda n: parse_expr('(self.func_name,)'))
     add('use-key-forgets-injected-tasks', 'mutant', USE,
         use_key_forgets_deps, {'KEY'})
+
+    def use_key_joined(tree):
+        # the F23 defect: the key is the joined string of the names
+        fun = find_func(tree, 'Use.get_task')
+        return replace_first(
+            fun, lambda n: isinstance(n, ast.Tuple) and txt(n) ==
+            '(dep_names, self.func_name)',
+            lambda n: parse_expr("','.join(dep_names) + '.' + "
+                                 "self.func_name"))
+    add('use-key-is-the-joined-string-of-the-names', 'mutant', USE,
+        use_key_joined, {'KEY-INJECTIVE'}, quick=True,
+        note="the F23 defect: one task 'a,b' and the tasks 'a', 'b' collide")
+
+    def factory_key_joined(tree):
+        # seed C15-r3-1
+        fun = find_func(tree, 'RunTaskFactory.make')
+        return replace_first(
+            fun, lambda n: isinstance(n, ast.Call) and call_name(n) ==
+            'det_hash',
+            lambda n: parse_expr("det_hash(self.name, ' '.join(str(a) for a "
+                                 "in extra_args), kwargs_)"))
+    add('seed-factory-key-from-the-joined-command-line', 'mutant', RUN,
+        factory_key_joined, {'KEY-INJECTIVE'})
 
     def make_extends_factory_deps(tree):
         # seed C15-r2-1: the factory's own list is extended in place
